@@ -333,7 +333,8 @@ PROPS["C13"] = {
                      P("hamt", "VerifHashBitsStep", must_reach=("end", "too-deep"), allwidths=1),
                      P("hamt", "VerifIsValueLink"),
                      P("test", "VerifHostileShard", must_reach=("end", "rejected", "iterated"), depth=0, links=2),
-                     P("test", "VerifHostileShard", must_reach=("end", "rejected", "iterated"), depth=1, links=1, small=0),
+                     P("test", "VerifHostileShard", must_reach=("end", "rejected", "iterated"), depth=1, links=1),
+                     P("test", "VerifHostileShard", must_reach=("end", "rejected", "iterated"), depth=0, links=1, small=0),
                      P("test", "VerifHostileFile", must_reach=("end", "rejected", "sought"), depth=0, maxbs=3, vals=1, slim=0),
                      P("test", "VerifHostileFile", must_reach=("end", "rejected", "sought"), depth=0, maxbs=3, offrange=3, vals=0, slim=0),
 
@@ -342,7 +343,7 @@ PROPS["C13"] = {
     "bounds": {"quick": "decoders: ALL byte strings of length 3 (value xor error, no panic, step budget); hashBits.Next from any state with any width; hostile shard DAGs: root + 0..1 links, child shard with 0..1 links, fanouts {8,1024} chosen independently per shard, bitfields of 1..2 arbitrary bytes, names absent or 1..4 arbitrary bytes, children raw/shard/missing/non-UnixFS, lazy and preload, Length / 4 lookups / full iteration; hostile file DAGs: FileSize absent or ANY 64-bit value, 0..2 BlockSizes of ANY value (fewer or more than the links), two links with Tsize absent or ANY value of 3 magnitude classes, children raw / dag-pb leaf / missing, lazy and preload, AsBytes or Seek(|off|<=3, any whence)+2 reads; negative and overflowing seeks; reification of arbitrary type / shard parameters",
                "thorough": "byte strings of length 4; 2 links per shard (one level) ; fanouts {8,16,256,1024}; hostile file DAGs with inline data, 1..2 links, 0..3 BlockSizes, |off|<=2^40; with plausible values and all count/kind combinations"},
     "assumptions": ["panics inside dependency decoders on bytes the harness never generates (dag-pb decode of arbitrary bytes) are not this library's code"],
-    "outside": "blocks larger than the bound; hostile file nodes nested below hostile file nodes (2.7 million paths after an hour, not finished); two links per shard at two levels (3.2 million paths after 53 minutes, not finished)",
+    "outside": "blocks larger than the bound; hostile file nodes nested below hostile file nodes (2.7 million paths after an hour, not finished); two links per shard at two levels (3.2 million paths after 53 minutes, not finished); the wide value menu (4 fanouts, free Tsize, 0..2 bitfield bytes) at two levels (415 000 paths after 31 minutes, not finished)",
 }
 
 # ---------------------------------------------------------------- C14
